@@ -108,6 +108,17 @@ func (p *Prepared) runPath(x *Explorer) (end string, msg string) {
 				if r.kind == endUnsupported {
 					msg += stackNote(i)
 				}
+				if r.kind == endLimit && x.limitLabel != "" {
+					var m []ModelVal
+					var ev []string
+					if x.query("", true) == "sat" {
+						m = x.model()
+						ev = x.renderedEvents()
+					}
+					x.popModel()
+					x.recordViolation(x.limitLabel, true, m, ev, nil)
+					end, msg = "stop", "budget exhausted: "+r.msg
+				}
 			case targetPanic:
 				end, msg = "target-panic", toString(r.v)
 			case runtime.Error:
